@@ -327,21 +327,21 @@ func Run(r *mc.Run) {
 func Replay(scenario string, raw json.RawMessage) []*mc.Violation {
 	if scenario == "decode-into-reused-value" {
 		var in ReuseIn
-		if json.Unmarshal(raw, &in) == nil {
+		if mc.UnmarshalInput(raw, &in) == nil {
 			return checkReuse(scenario, in)
 		}
 		return nil
 	}
 	if scenario == "arch-names-roundtrip" {
 		var in ArchIn
-		if json.Unmarshal(raw, &in) == nil {
+		if mc.UnmarshalInput(raw, &in) == nil {
 			vs, _ := checkArch(scenario, in)
 			return vs
 		}
 		return nil
 	}
 	var in In
-	if json.Unmarshal(raw, &in) == nil {
+	if mc.UnmarshalInput(raw, &in) == nil {
 		vs, _ := checkFix(scenario, in)
 		return vs
 	}
